@@ -23,7 +23,7 @@ type c16sub struct {
 var c16subs = []c16sub{
 	{"\t", "whitespace"}, {"\n", "whitespace"}, {"\r", "whitespace"}, {"\r\n", "whitespace"}, {"  ", "whitespace"}, {" \t\r\n ", "whitespace"},
 	{" -- c\n", "line-comment"}, {"\n--\n", "line-comment"}, {" -- ; \n", "line-comment"}, {" --c\r\n ", "line-comment"},
-	{" /* c */ ", "block-comment"}, {" /**/ ", "block-comment"}, {" /* -- */ ", "block-comment"}, {" /* ' */ ", "block-comment"}, {" /* ; */ ", "block-comment"}, {"\n/* a\nb */\n", "block-comment"},
+	{" /* c */ ", "block-comment"}, {" /**/ ", "block-comment"}, {" /* -- */ ", "block-comment"}, {" /* ' */ ", "block-comment"}, {" /* ; */ ", "block-comment"}, {"\n/* a\nb */\n", "block-comment"}, {" /*/ c */ ", "block-comment"}, {" /***/ ", "block-comment"},
 }
 
 func tokClass(t gram.Tok) string {
@@ -57,9 +57,11 @@ func c16gapBody(c *xplore.Ctx) (text string, form string, fs []ev.Finding, skipp
 		return "", spec.Form, nil, true
 	}
 	ps := gram.RenderPieces(nil, spec.Toks)
+	// every gap where whitespace may stand: the ones that carry it in the default rendering and the optional ones
+	// that are empty by convention (before ',' and ')', after '('): `a , b` is as legal as `a, b`
 	var gaps []int
 	for i := 1; i < len(ps); i++ {
-		if ps[i].Gap != "" {
+		if ps[i].GapKind != gram.GapNone {
 			gaps = append(gaps, i)
 		}
 	}
@@ -174,6 +176,14 @@ func init() {
 		if json.Unmarshal(raw, &probe) != nil {
 			return nil
 		}
+		if _, ok := probe["query"]; ok {
+			var m map[string]string
+			json.Unmarshal(raw, &m)
+			if _, err := influxql.ParseQuery(m["query"]); err != nil {
+				return []ev.Finding{{Sig: "query-rejected:" + ev.SigSafe(errClass(err.Error())), Witness: m["query"], Detail: err.Error()}}
+			}
+			return nil
+		}
 		if _, ok := probe["stmts"]; ok {
 			var c c16qCase
 			json.Unmarshal(raw, &c)
@@ -188,9 +198,9 @@ func init() {
 }
 
 func c16run(r *ev.Run) {
-	sets := []boundSet{{"struct<=1 x every whitespace gap x 16 substitutions", []int{1, 0, 0}}}
+	sets := []boundSet{{"struct<=1 x every gap that may hold whitespace x 16 substitutions", []int{1, 0, 0}}}
 	if thorough(r) {
-		sets = []boundSet{{"struct<=2 x every whitespace gap x 16 substitutions", []int{2, 0, 0}}}
+		sets = []boundSet{{"struct<=3 x every gap that may hold whitespace x 16 substitutions", []int{3, 0, 0}}}
 	}
 	runGrammar(r, sets, c16gapBody)
 	// statement separation
@@ -237,6 +247,65 @@ func c16run(r *ev.Run) {
 			}
 		}
 	})
+	// every statement form of the grammar model (within one deviation) joined to itself and to a SELECT with the plain separators
+	var poolMu syncMutex
+	pool2 := map[string]bool{}
+	ex := &xplore.Explorer{Bounds: []int{1, 0, 0}, Workers: r.Workers, Deadline: deadlineFor(r.Tier), Body: func(c *xplore.Ctx) {
+		g := gram.New(c)
+		g.NoValueAlts = true
+		spec := gram.Statement(g)
+		if g.InvalidWhy != "" {
+			return
+		}
+		t := gram.Render(nil, spec.Toks)
+		poolMu.Lock()
+		pool2[t] = true
+		poolMu.Unlock()
+	}}
+	ex.Run()
+	var texts []string
+	for t := range pool2 {
+		texts = append(texts, t)
+	}
+	sortStrings(texts)
+	parallelFor(len(texts), func(i int) {
+		t := texts[i]
+		alone, err := influxql.ParseStatement(t)
+		if err != nil {
+			return
+		}
+		other := "SELECT a FROM m"
+		oa, _ := influxql.ParseStatement(other)
+		for _, q := range []struct {
+			text string
+			want []influxql.Statement
+		}{
+			{t, []influxql.Statement{alone}}, {t + ";", []influxql.Statement{alone}}, {t + " ;", []influxql.Statement{alone}}, {";" + t, []influxql.Statement{alone}},
+			{t + ";" + other, []influxql.Statement{alone, oa}}, {other + ";" + t, []influxql.Statement{oa, alone}}, {t + "; " + t, []influxql.Statement{alone, alone}},
+			{t + "\n;\n" + other + ";", []influxql.Statement{alone, oa}},
+		} {
+			n := r.Eval()
+			r.Trans(int64(len(q.want)))
+			r.State(astx.HashString("Q2|"+q.text), len(q.want) > 1)
+			r.Sample(n, func() interface{} { return q.text })
+			cs := map[string]string{"query": q.text}
+			got, err := influxql.ParseQuery(q.text)
+			if err != nil {
+				r.Report(ev.Finding{Sig: "query-rejected:" + ev.SigSafe(errClass(err.Error())), Witness: q.text, Detail: err.Error(), Case: cs, Rank: len(q.text)})
+				continue
+			}
+			if len(got.Statements) != len(q.want) {
+				r.Report(ev.Finding{Sig: "statement-count", Witness: q.text, Detail: fmt.Sprintf("%d statements, want %d", len(got.Statements), len(q.want)), Case: cs, Rank: len(q.text)})
+				continue
+			}
+			for k := range q.want {
+				if path, a, b := astx.Diff(astx.Denoted, q.want[k], got.Statements[k]); path != "" {
+					r.Report(ev.Finding{Sig: "statement-differs-from-alone", Witness: q.text, Detail: fmt.Sprintf("statement %d differs at %s: %s vs %s", k, path, a, b), Case: cs, Rank: len(q.text)})
+				}
+			}
+		}
+	})
+	r.Set("grammar_pool_for_separation", len(texts))
 	r.Set("substitutions", len(c16subs))
 	r.Set("query_pool", np)
 	r.Set("separator_forms", nsep)
